@@ -178,7 +178,7 @@ def meta(tier):
         'functions': loader.functions_encoded(fns),
         'bounds': 'order 1..4 (thorough 5); mode sizes in {1,2,3,4}; ranks in {1,2,3}; rank profiles of the two operands distinct; '
                   'every listed broadcasting alignment of a second operand into the first; all core entries and scalar operands symbolic reals '
-                  '(complex: symbolic re/im pairs); int scalars enumerated {0,2,-1}',
+                  '(complex: symbolic re/im pairs); int scalars enumerated {0,2,-1}; six structures repeated after a prelude of unrelated public calls (scalar / w with the AMEn kernel replaced by its contract, w / scalar, scalar - w, w * 0, ones * scalar)',
         'outside': 'IEEE rounding/overflow/NaN (arithmetic is over the reals); sizes > 4, ranks > 3, order > 5; broadcasting where the FIRST operand '
                    'has fewer or size-1 modes (library raises a documented ShapeMismatch); torch/numpy scalars on the left (dispatch to torch/numpy)',
         'assumptions': ['symtorch models torch (validated per run against real torch on seeded inputs)',
